@@ -207,7 +207,7 @@ def build_workspace(ws: Workspace, modules, features=ALL_FEATURES, max_rounds=5,
         if not by:
             return False, quarantined, {"rounds": rnd + 1, "build_s": time.time() - t0, "stderr": err[-4000:], "unattributed": [d["rendered"] for d in un[:5]]}
         for did, ds in by.items():
-            quarantined[did] = [{"code": d["code"], "message": d["message"][:300], "rendered": d["rendered"][:900]} for d in ds[:4]]
+            quarantined[did] = [{"code": d["code"], "message": d["message"][:300], "rendered": d["rendered"][:2500]} for d in ds[:4]]
         mods = [(did, mt) for (did, mt) in mods if did not in quarantined]
     return False, quarantined, {"rounds": max_rounds, "build_s": time.time() - t0, "stderr": "too many quarantine rounds"}
 
